@@ -27,7 +27,7 @@ from . import kernel as K
 from . import ref as R
 from .kernel import BOOL, INT, REAL, STR, Rel, SymInput, Unsupported
 
-REPO_SRC = "/repo/src"
+REPO_SRC = os.environ.get("PV_REPO_SRC", "/repo/src")
 
 
 @dataclasses.dataclass
@@ -512,6 +512,7 @@ def validate_models(tp: Template, b: Built, cfg: Cfg, rng: random.Random) -> lis
         o = Obl(tp.name, f"validate:{be}")
         agree = tried = 0
         mismatch = None
+        engine_error = None
         for _ in range(cfg.validate_samples):
             inputs = {name: random_rows(schema, b.syms[name].nmax, rng, tp) for name, schema in tp.sources}
             subs = []
@@ -533,7 +534,8 @@ def validate_models(tp: Template, b: Built, cfg: Cfg, rng: random.Random) -> lis
             try:
                 names, rows_r = run_real(tp, prog, be, inputs)
             except Exception as e:  # noqa: BLE001
-                mismatch = {"inputs": inputs, "error": f"{type(e).__name__}: {str(e)[:200]}"}
+                # the real engine fails on a concrete input inside DEF: reported as such
+                engine_error = {"inputs": inputs, "error": f"{type(e).__name__}: {str(e)[:200]}"}
                 tried += 1
                 continue
             tried += 1
@@ -541,8 +543,12 @@ def validate_models(tp: Template, b: Built, cfg: Cfg, rng: random.Random) -> lis
                 agree += 1
             else:
                 mismatch = {"inputs": inputs, "model": rows_m, "real": rows_r, "names": names}
-        o.status = "validated" if agree == tried else "model-mismatch"
-        o.detail = {"tried": tried, "agree": agree, "mismatch": mismatch}
+        if engine_error is not None:
+            o.status = "engine-error"
+            o.detail = {"tried": tried, "agree": agree, **engine_error}
+        else:
+            o.status = "validated" if agree == tried else "model-mismatch"
+            o.detail = {"tried": tried, "agree": agree, "mismatch": mismatch}
         out.append(o)
     return out
 
